@@ -176,6 +176,11 @@ func Now() time.Time {
 var lastNow, firstNow time.Time
 var haveFirstNow bool
 
+// TimeFormatDigits: under the engine, Format/Parse of symbolic instants with layouts built
+// from 2006 01 02 15 04 05, 'T', separators and a UTC zone produce / consume fixed-width
+// digit strings (uninterpreted digits per component index). Natively a no-op.
+func TimeFormatDigits() {}
+
 // FirstNow returns the first reading of the controlled clock.
 func FirstNow() time.Time { return firstNow }
 
